@@ -47,6 +47,8 @@ def schedules(H, rng, n_random):
     if H in (3, 9, 30):
         # more than a thousand UPDATEs, each arriving 0.6 H after the one before: every single one has to restart the timer
         out.append(('very-long-run', [(0.6 * H, 'UPD' if i % 7 else 'UPDUNK') for i in range(1100)]))
+    for i_ in range(len(S.LENGTH_EDGE)):
+        out.append(('length-edge-%d' % i_, [(H / 2.0, 'KA'), (H - e, 'LEN%d' % i_), (H - e, 'LEN%d' % i_)]))
     out.append(('rr-only', [(H / 2.0, 'RR')] * 5))
     out.append(('rr-then-ka', [(H / 2.0, 'RR'), (H / 2.0 - e, 'KA'), (H / 2.0, 'RR'), (H / 2.0, 'RR')]))
     out.append(('rest-updates', [(H / 3.0, 'REST'), (H / 4.0, 'KA'), (H / 3.0, 'REST'), (H - e, 'UPD'), (H / 5.0, 'REST')]))
@@ -119,7 +121,7 @@ def run_case(cfg_hold, prop_hold, sched, order, phase='established', ka_delay=0.
             m_, p_, b_ = S.REST_SENDS[dict(REST='R_UPD', RESTRR='R_RR', RESTBIN='R_BIN')[kind]]
             w.rest(m_, p_, json_body=b_)
             continue
-        data = dict(KA=KEEPALIVE, UPD=S.UPD_EMPTY, UPDBAD=UPD_BAD, UPDUNK=S.UPD_UNKFAM, UPDOVR=S.MSGS['UPD_wdoverrun'][0], UPDLSU=S.MSGS['UPD_lsunreach'][0], RR=S.MSGS['RR'][0])[kind]
+        data = dict({'LEN%d' % i_: S.MSGS[n_][0] for i_, n_ in enumerate(S.LENGTH_EDGE)}, KA=KEEPALIVE, UPD=S.UPD_EMPTY, UPDBAD=UPD_BAD, UPDUNK=S.UPD_UNKFAM, UPDOVR=S.MSGS['UPD_wdoverrun'][0], UPDLSU=S.MSGS['UPD_lsunreach'][0], RR=S.MSGS['RR'][0])[kind]
         w.deliver(data, tr)
         arrivals += 1
         if H:
